@@ -72,6 +72,7 @@ def build(force=False):
                 f.write(tzif_bytes(d))
             os.replace(p + ".tmp", p)
             tables[name] = zones.table(name, path=p)
+        tables["UTC"] = zones.table("UTC")          # the real UTC zone, so that model-checking configs can use it
         # cross-check the decoded tables against plain zoneinfo loading the compiled files
         import zoneinfo
 
